@@ -121,7 +121,7 @@ def gen_accel(rng, direction):
     if direction == "struclbfgs":
         if rng.random() < 0.4:
             Dp["hvf"] = rng.choice([1.0, 0.5, 2.0])
-            if rng.random() < 0.45: Dp["fd"] = False
+            if rng.random() < 0.55: Dp["fd"] = False
             if rng.random() < 0.4: Dp["full_aug"] = False
         if rng.random() < 0.4: Dp["use_scaled"] = True
     return A, Dp
@@ -156,6 +156,8 @@ def gen_random(ctx, N, dirs=DIRS):
         if rng.random() < 0.1: P["qub_tol"] = rng.choice([0.0, 1e-3])
         if rng.random() < 0.1: P["ls_tol"] = rng.choice([0.0, 1e-3])
         A, Dp = gen_accel(rng, direction)
+        if direction == "struclbfgs" and Dp.get("hvf", 0.0) != 0.0 and not Dp.get("fd", True):
+            prob.hess = rng.random() < 0.85            # exact Hessian-vector members (without them initialize throws)
         x0 = rng.vec(n, 2.0)
         y0 = rng.vec(m, 1.0); S0 = [rng.choice([0.5, 1.0, 4.0, 10.0]) for _ in range(m)]
         tag = direction
@@ -352,6 +354,7 @@ def run_corr(ctx, prefix, scale, extra_oracle=None, F=FLAVOR):
         ctx.case(signature(cs, o), sample=({"request": cs.rq.describe(), "status": o.get("status"), "iterations": o.get("iterations"), "records": len(o["records"])}
                                           if len(o["records"]) > 3 else None))
         ctx.count("status/" + o.get("status", "exception"))
+        if F.get("observe"): F["observe"](ctx, cs, o)
         recs = o["records"]
         if any(sl.D(b, "gamma") < sl.D(a, "gamma") for a, b in zip(recs, recs[1:])) and cs.direction != "noop":
             ctx.count("runs-with-step-size-change-after-k=0/" + cs.direction + ("+rescale" if cs.direction in ("lbfgs", "anderson") and cs.D_("rescale") else ""))
